@@ -170,7 +170,7 @@ def extract(config="default", root=None, extra=False, verbose=False):
     return [out for (_, out, _, _) in res], info
 
 
-def _prune_cache(cdir, keep=900):
+def _prune_cache(cdir, keep=3000):
     try:
         fs = [os.path.join(cdir, f) for f in os.listdir(cdir)]
         if len(fs) <= keep:
